@@ -189,15 +189,14 @@ impl std::fmt::Display for ExecutedState {
             Fold(FoldResult { lore }) => {
                 writeln!(f, "fold(",)?;
                 for sublore in lore {
-                    writeln!(
-                        f,
-                        "          {} - [{}, {}], [{}, {}]",
-                        sublore.value_pos,
-                        sublore.subtraces_desc[0].begin_pos,
-                        sublore.subtraces_desc[0].subtrace_len,
-                        sublore.subtraces_desc[1].begin_pos,
-                        sublore.subtraces_desc[1].subtrace_len
-                    )?;
+                    // a fold state from data could have any number of descriptors,
+                    // and it is printed in error messages before or instead of being checked
+                    write!(f, "          {} -", sublore.value_pos)?;
+                    for (idx, desc) in sublore.subtraces_desc.iter().enumerate() {
+                        let separator = if idx == 0 { "" } else { "," };
+                        write!(f, "{separator} [{}, {}]", desc.begin_pos, desc.subtrace_len)?;
+                    }
+                    writeln!(f)?;
                 }
                 write!(f, "     )")
             }
